@@ -155,7 +155,7 @@ def doPat (sp : List Char) (fields : List String) : Cur × String :=
             | .wrap => false
             | .fancy _ => s4ok (fun g => backrefs.contains g) b.raw && wellShaped b.raw && noBareEndZ b.raw
           -- … and for stage S5 (`C01_vm_correct_s5`, Proofs/C01h.lean: `s5Stage` = S4 or `s5New`): such runs anywhere
-          -- outside look-behind bodies, when no back-reference / group test in the pattern names one of their groups
+          -- (look-behind bodies included), when no back-reference / group test in the pattern names one of their groups
           let s5 := s4 || (match b.kind with
             | .wrap => false
             | .fancy _ => s5Raw (fun g => backrefs.contains g) b.raw && wellShaped b.raw && noBareEndZ b.raw)
